@@ -235,6 +235,160 @@ std::string canon(Probe *p, const Json &js, size_t extra) {
     return s + "]";
 }
 
+
+// ---- names world (`k…` ops): modules with arbitrary names, addAs(), the configuration object itself (lean/TboxModel/C11/Names.lean)
+struct KProbe;
+std::map<uint64_t, KProbe*> g_kmods;
+std::vector<std::string> g_ktr;
+Json g_kcfg;                                   // null until something is written
+const char *const kNameTokens[] = {"-", "#", "a", "b", "c", "children", "required", "vars"};
+
+bool kname(const std::string &w, std::string &out) {
+    for (auto t : kNameTokens) if (w == t) { out = (w == "-") ? std::string() : w; return true; }
+    return false;
+}
+std::string kmarker(const Json &js) {
+    if (js.is_object() && js.contains("#") && js["#"].is_number_unsigned()) return std::to_string(js["#"].get<uint64_t>());
+    return "?";
+}
+
+struct KProbe : public Module {
+    uint64_t id; int64_t parent = -1; std::vector<uint64_t> kids; std::vector<std::string> writes;
+    KProbe(uint64_t id_, const std::string &nm) : Module(nm, g_ctx), id(id_) { g_kmods[id] = this; }
+    ~KProbe() override { g_kmods.erase(id); }
+  protected:
+    void onFillDefaultConfig(Json &js_this) override {
+        if (!name().empty()) js_this["#"] = id;
+        for (auto &k : writes) js_this[k] = (uint64_t)7;
+    }
+    bool onInit(const Json &js) override { g_ktr.push_back("i" + std::to_string(id) + "+" + kmarker(js)); return true; }
+    void onCleanup() override { g_ktr.push_back("c" + std::to_string(id)); }
+};
+
+KProbe *kfind(uint64_t id) { auto it = g_kmods.find(id); return it == g_kmods.end() ? nullptr : it->second; }
+
+void kreset() {
+    for (;;) {
+        KProbe *root = nullptr;
+        for (auto &kv : g_kmods) if (kv.second->parent < 0) { root = kv.second; break; }
+        if (!root) break;
+        delete root;
+    }
+    g_kmods.clear(); g_ktr.clear(); g_kcfg = Json();
+}
+
+std::string kline(const std::string &ret) {
+    std::string tr, st, nm;
+    for (auto &e : g_ktr) { if (!tr.empty()) tr += ","; tr += e; }
+    for (auto &kv : g_kmods) {
+        if (!st.empty()) { st += ","; nm += ","; }
+        st += std::to_string(kv.first) + ":" + (kv.second->state() == Module::State::kNone ? "N" : "I");
+        std::string n = kv.second->name();
+        nm += std::to_string(kv.first) + ":" + (n.empty() ? "-" : n);
+    }
+    return "P ret=" + ret + " tr=" + (tr.empty() ? "-" : tr) + " st=" + (st.empty() ? "-" : st) + " nm=" + (nm.empty() ? "-" : nm);
+}
+
+// toJson() walked along the shadow tree: `id[req:child,…]`, anything unexpected as a `!…` marker
+std::string kcanon(KProbe *p, const Json &js, size_t extra) {
+    std::string s = std::to_string(p->id) + "[";
+    size_t keys = extra;
+    if (!p->kids.empty()) {
+        if (!js.is_object() || !js.contains("children") || !js["children"].is_object()) return s + "!nochildren]";
+        ++keys;
+        const Json &jc = js["children"];
+        if (jc.size() != p->kids.size()) s += "!count";
+        bool first = true;
+        for (auto k : p->kids) {
+            KProbe *c = g_kmods.at(k);
+            if (!first) s += ",";
+            first = false;
+            if (!jc.contains(c->name())) { s += "!missing"; continue; }
+            const Json &j = jc[c->name()];
+            if (!j.is_object() || !j.contains("required") || !j["required"].is_boolean()) { s += "!req"; continue; }
+            s += j["required"].get<bool>() ? "1:" : "0:";
+            s += kcanon(c, j, 1);
+        }
+    } else if (js.is_object() && js.contains("children")) s += "!children";
+    if (js.size() != keys) s += "!keys";
+    return s + "]";
+}
+
+bool kpath(const std::string &w, std::vector<std::string> &out) {
+    size_t pos = 0;
+    for (;;) {
+        size_t q = w.find('/', pos);
+        std::string nm;
+        if (!kname(w.substr(pos, q == std::string::npos ? q : q - pos), nm) || nm.empty()) return false;
+        out.push_back(nm);
+        if (q == std::string::npos) return true;
+        pos = q + 1;
+    }
+}
+
+// returns false for an ill-formed line
+bool names_op(const std::vector<std::string> &w) {
+    const std::string &op = w[0];
+    uint64_t a = 0, b = 0; bool req = false; std::string nm;
+    auto idok = [](const std::string &x, uint64_t &v) { return x.size() <= 4 && vh::to_u64(x, v) && v < 1000; };
+    auto flag = [](const std::string &x, bool &f) { if (x == "0") { f = false; return true; } if (x == "1") { f = true; return true; } return false; };
+    g_ktr.clear();
+    if (op == "knew" && w.size() == 3 && idok(w[1], a) && kname(w[2], nm) && !kfind(a)) {
+        new KProbe(a, nm);
+        std::cout << kline("1") << "\n"; return true;
+    }
+    if (op == "kwr" && w.size() >= 2 && idok(w[1], a) && kfind(a)) {
+        std::vector<std::string> ks;
+        for (size_t i = 2; i < w.size(); ++i) { if (!kname(w[i], nm) || nm.empty()) return false; ks.push_back(nm); }
+        kfind(a)->writes = ks;
+        std::cout << kline("1") << "\n"; return true;
+    }
+    if ((op == "kadd" && w.size() == 4 && idok(w[1], a) && idok(w[2], b) && flag(w[3], req)) ||
+        (op == "kaddas" && w.size() == 5 && idok(w[1], a) && idok(w[2], b) && kname(w[3], nm) && flag(w[4], req))) {
+        KProbe *p = kfind(a), *c = kfind(b);
+        if (!p || !c) return false;
+        bool ret = (op == "kadd") ? p->add(c, req) : p->addAs(c, nm, req);
+        if (ret) { c->parent = (int64_t)p->id; p->kids.push_back(c->id); }
+        std::cout << kline(ret ? "1" : "0") << "\n"; return true;
+    }
+    if (op == "knull" && w.size() == 4 && idok(w[1], a) && kname(w[2], nm) && flag(w[3], req) && kfind(a)) {
+        bool ret = kfind(a)->addAs(nullptr, nm, req);
+        std::cout << kline(ret ? "1" : "0") << "\n"; return true;
+    }
+    if (op == "kcfg" && w.size() == 1) { g_kcfg = Json(); std::cout << "P cfg\n"; return true; }
+    if (op == "kput" && w.size() == 3 && (w[2] == "n" || w[2] == "o" || w[2] == "z")) {
+        std::vector<std::string> path; if (!kpath(w[1], path)) return false;
+        try {
+            Json *j = &g_kcfg;
+            for (size_t i = 0; i + 1 < path.size(); ++i) j = &(*j)[path[i]];
+            (*j)[path.back()] = (w[2] == "n") ? Json((uint64_t)7) : (w[2] == "o") ? Json::object() : Json();
+            std::cout << "P ret=1\n";
+        } catch (const Json::exception &) { g_kcfg = Json(); std::cout << "P ret=X\n"; }
+        return true;
+    }
+    if (op == "kdel" && w.size() == 2) {
+        std::vector<std::string> path; if (!kpath(w[1], path)) return false;
+        Json *j = &g_kcfg;
+        for (size_t i = 0; i + 1 < path.size() && j; ++i) j = (j->is_object() && j->contains(path[i])) ? &(*j)[path[i]] : nullptr;
+        if (j && j->is_object()) j->erase(path.back());
+        std::cout << "P ret=1\n"; return true;
+    }
+    if (w.size() == 2 && idok(w[1], a)) {
+        KProbe *p = kfind(a);
+        if (!p || p->parent >= 0) return false;
+        if (op == "kfill") {
+            try { p->fillDefaultConfig(g_kcfg); std::cout << "P ret=1\n"; }
+            catch (const Json::exception &) { g_kcfg = Json(); std::cout << "P ret=X\n"; }
+            return true;
+        }
+        if (op == "kinit") { bool r = p->initialize(g_kcfg); std::cout << kline(r ? "1" : "0") << "\n"; return true; }
+        if (op == "kcleanup") { p->cleanup(); std::cout << kline("1") << "\n"; return true; }
+        if (op == "kdestroy") { delete p; std::cout << kline("1") << "\n"; return true; }
+        if (op == "kjson") { Json js; p->toJson(js); std::cout << "P json=" << kcanon(p, js, 0) << "\n"; return true; }
+    }
+    return false;
+}
+
 bool g_quiet = false;
 
 bool to_bool(const std::string &w, bool &b) { if (w == "0") { b = false; return true; } if (w == "1") { b = true; return true; } return false; }
@@ -292,7 +446,8 @@ int main() {
         auto w = vh::words(line);
         if (w.empty()) continue;
         alarm(10);   // watchdog per op line: a lifecycle/add() call that never returns ends the process (SIGALRM -> CRASH for this case)
-        if (w[0] == "case") { reset_all(); g_quiet = false; std::cout << line << "\n"; continue; }
+        if (w[0] == "case") { reset_all(); kreset(); g_quiet = false; std::cout << line << "\n"; continue; }
+        if (w[0][0] == 'k') { if (!names_op(w)) std::cout << "bad-op\n"; continue; }
         if (w[0] == "json") {
             uint64_t k = 0; Probe *p = nullptr;
             if (w.size() == 2 && to_id(w[1], k) && !g_quiet && (p = find(k)) && p->parent < 0) {
@@ -349,6 +504,6 @@ int main() {
         std::cout << "P ret=" << (thrown ? "X" : ret ? "1" : "0") << " tr=" << trace() << " st=" << states() << "\n";
     }
     alarm(10);
-    reset_all();
+    reset_all(); kreset();
     return 0;
 }
